@@ -139,6 +139,12 @@ func VerifC09To() {
 	}
 	verifReach("to-valid")
 	verifAssert(perr == nil, "toOSPath refused a valid name")
+	// a further Sub is confined as well: a directory that is not a valid path is refused, whatever it would
+	// clean to once joined with the root
+	for _, bad := range []string{"..", "../..", "x/../..", "x/../../..", "/", "x//y", "./x", ""} {
+		_, serr := fs.Sub(bad)
+		verifAssert(serr != nil && errors.Is(serr, hackpadfs.ErrInvalid), "Sub accepted a directory that is not a valid path")
+	}
 	want := c09Expected(conv, fs, root, name)
 	verifObserveStr("ospath", got)
 	verifAssert(got == want, "toOSPath: OS path differs from volume + root joined with the name")
